@@ -322,3 +322,8 @@ pub fn replay(sub: &str, case: &Value) -> Result<(), Fail> {
         _ => Err(Fail::new("replay-unknown-sub", sub.to_string())),
     }
 }
+
+pub fn fuzz_targets() -> Vec<crate::fuzz::Target> {
+    use crate::fuzz::from_strategy;
+    vec![from_strategy("c11_flow", "C11", "random", hist_random, check_hist)]
+}
